@@ -36,6 +36,9 @@ impl<T: Clone, N, S: Storage<T, N>> Cluster<T, N, S> {
     pub(crate) fn verif_state(&self) -> String {
         format!("{:?}", self.state)
     }
+    pub(crate) fn verif_local_commit(&self) -> u64 {
+        self.local().log_commit
+    }
     pub(crate) fn verif_index(&self) -> u64 {
         self.index
     }
